@@ -8,6 +8,10 @@ mtscomp codec it delegates to.  Three families of cases (see coq/C02/Run.v):
           injected at every instrumented call (zlib, writes, json.dump, check,
           rename, unlink, copy/move) and with stale files lying around
   kind 2  the codec: chunk bounds, per-chunk pre-zlib payload, round trip
+  kind 3  ONE Reader object taken through sequences of open() / compress_file / decompress_file
+          (keep_original both ways) / decompress_to_scratch: its cached fields (file_bin, nbytes,
+          ns, raw reader, size-mismatch warning) after every call, shape and chunk-seam values
+          against the original recording, and fresh Readers opened afterwards
 """
 import builtins
 import gc
@@ -677,6 +681,167 @@ def gen_scenarios(ctx, world):
 
 
 # --------------------------------------------------------------------------
+# kind 3: one Reader object through a sequence of calls
+# --------------------------------------------------------------------------
+class _Cap(logging.Handler):
+    def __init__(self):
+        super().__init__(level=logging.WARNING)
+        self.hits = 0
+
+    def emit(self, record):
+        if "checkout" in record.getMessage():
+            self.hits += 1
+
+
+def _raw_kind(sr):
+    raw = getattr(sr, "_raw", None)
+    if raw is None:
+        return 0
+    if isinstance(raw, np.memmap):
+        return 3 if raw._mmap.closed else 1
+    cd = getattr(raw, "cdata", None)
+    return 3 if (cd is None or cd.closed) else 2
+
+
+def object_case(tdir, nc, n, cs, ns0, f0, ops, D):
+    """ops: list of op codes (see coq/C02/Run.v kind 3); ops[0] is the open() done by the constructor."""
+    spikeglx, mtscomp = _imports()
+    d = Path(tdir)
+    ref = d / "ref"
+    ref.mkdir(parents=True)
+    stem = "rec_g0_t0.nidq"
+    rb = ref / (stem + ".bin")
+    D.tofile(rb)
+    rb.with_suffix(".meta").write_text(meta_text(nc, n, 1))
+    mtscomp.compress(rb, out=rb.with_suffix(".cbin"), outmeta=rb.with_suffix(".ch"), sample_rate=FS, n_channels=nc,
+                     dtype=np.int16, chunk_duration=cs / FS, n_threads=1, check_after_compress=False)
+    zc = rb.with_suffix(".cbin").stat().st_size
+    bounds = json.loads(rb.with_suffix(".ch").read_text())["chunk_bounds"]
+    pr = spikeglx.Reader(rb)
+    seams = sorted({x for bnd in bounds for x in (bnd - 1, bnd, bnd + 1) if 0 <= x <= n})
+    sels = [slice(None)] + [slice(a, e) for a in seams for e in seams if a < e][:40] + [i for i in seams if i < n]
+    refv = [np.array(pr[sel]) for sel in sels]
+    pr.close()
+    w = d / "w"
+    (w / "scratch").mkdir(parents=True)
+    b = w / (stem + ".bin")
+    b.with_suffix(".meta").write_text(meta_text(nc, ns0, 1))
+    if f0 == 1:
+        shutil.copy(rb, b)
+    else:
+        shutil.copy(rb.with_suffix(".cbin"), b.with_suffix(".cbin"))
+        shutil.copy(rb.with_suffix(".ch"), b.with_suffix(".ch"))
+    obs = {"zc": zc, "steps": [], "problems": [], "stale_nbytes": 0}
+    lg = logging.getLogger("ibllib")
+    cap = _Cap()
+    old = (lg.level, lg.propagate, logging.root.manager.disable)
+    logging.disable(logging.NOTSET)
+    lg.setLevel(logging.WARNING)
+    lg.propagate = False
+    lg.addHandler(cap)
+    sr = None
+    warned = 0
+    try:
+        for k, op in enumerate(ops):
+            raised = 0
+            cap.hits = 0
+            try:
+                if k == 0:
+                    sr = spikeglx.Reader(b if f0 == 1 else b.with_suffix(".cbin"))
+                    warned = int(cap.hits > 0)
+                elif op == 0:
+                    sr.open()
+                    warned = int(cap.hits > 0)
+                elif op in (1, 2):
+                    sr.compress_file(keep_original=(op == 1), chunk_duration=cs / FS, n_threads=1)
+                elif op in (3, 4):
+                    sr.decompress_file(keep_original=(op == 3), overwrite=True, n_threads=1)
+                else:
+                    sr.decompress_to_scratch(scratch_dir=w / "scratch")
+            except (AssertionError, ValueError) as e:
+                raised = 1
+                if k == 0:
+                    obs["problems"].append(("object_open", "constructor raised %r" % (e,)))
+                    break
+            rk = _raw_kind(sr)
+            fcode = {".bin": 1, ".cbin": 2}.get(Path(sr.file_bin).suffix, 9)
+            obs["steps"].append([raised, fcode, int(sr.nbytes), int(sr.ns), rk, warned,
+                                 int(b.exists()), int(b.with_suffix(".cbin").exists())])
+            tag = "after call %d (%s)" % (k, OBJ_OPS[op])
+            # the property: the same object keeps exposing the recording
+            if ns0 == n and tuple(sr.shape) != (n, nc):
+                obs["problems"].append(("object_shape", "%s: shape %s, recording is %s" % (tag, tuple(sr.shape), (n, nc))))
+            if int(sr.nbytes) != Path(sr.file_bin).stat().st_size:
+                obs["stale_nbytes"] += 1
+            if op == 0 and raised and ns0 == n:
+                obs["problems"].append(("object_open", "%s: open() raised" % tag))
+            if rk == 3 and sr.is_open:
+                obs["problems"].append(("stale_raw", "%s: is_open is True, file_bin is %s, but the raw reader is closed" % (
+                    tag, Path(sr.file_bin).suffix)))
+            elif rk in (1, 2) and tuple(sr.shape) == (n, nc):
+                try:
+                    bad = [str(sel) for sel, rv in zip(sels, refv)
+                           if not (np.array(sr[sel]).shape == rv.shape and np.array_equal(np.array(sr[sel]), rv))]
+                    if not np.array_equal(np.array(sr._raw[0:n]), D):
+                        bad.append("_raw[0:n]")
+                except Exception as e:
+                    bad = ["raised %r" % (e,)]
+                if bad:
+                    obs["problems"].append(("object_values", "%s: reads differ from the original: %s" % (tag, bad[:3])))
+        # fresh readers afterwards
+        obs["meta_file"] = 0
+        if sr is not None:
+            for path in (Path(sr.file_bin), b.with_suffix(".meta")):
+                try:
+                    s2 = spikeglx.Reader(path)
+                    if path.suffix == ".meta":
+                        obs["meta_file"] = {".bin": 1, ".cbin": 2}.get(Path(s2.file_bin).suffix, 9) if s2.file_bin else 0
+                    if ns0 == n and (tuple(s2.shape) != (n, nc) or not np.array_equal(np.array(s2[:, :]), refv[0])):
+                        obs["problems"].append(("object_fresh", "a fresh Reader(%s) after the sequence differs from the "
+                                                "original" % path.suffix))
+                    s2.close()
+                except Exception as e:
+                    obs["problems"].append(("object_fresh", "a fresh Reader(%s) after the sequence raised %r" % (path.suffix, e)))
+            try:
+                sr.close()
+            except Exception:
+                pass
+    finally:
+        lg.removeHandler(cap)
+        lg.setLevel(old[0])
+        lg.propagate = old[1]
+        logging.disable(old[2])
+    return obs
+
+
+OBJ_OPS = ["open()", "compress_file(keep_original=True)", "compress_file(keep_original=False)",
+           "decompress_file(keep_original=True)", "decompress_file(keep_original=False)", "decompress_to_scratch()"]
+
+
+def enc_obj_in(nc, n, zc, ns0, f0, ops):
+    return [3, n, nc, zc, n, ns0, f0] + list(ops)
+
+
+def enc_obj_out(obs):
+    out = [len(obs["steps"])]
+    for st in obs["steps"]:
+        out += st
+    return out + [obs["meta_file"]]
+
+
+def gen_object_sequences(ctx):
+    rng = ctx.rng
+    fixed = [(2, [0, 4, 0]), (2, [0, 4, 0, 2, 0, 4, 0]), (1, [0, 2, 0, 4, 0, 2, 0]), (1, [0, 2, 4, 0]), (2, [0, 5, 4, 0]),
+             (2, [0, 5, 0, 3, 4, 0]), (1, [0, 1, 2, 0, 3, 0, 4, 0]), (2, [0, 3, 0, 4, 2, 0]), (1, [0, 5, 4, 1, 0]),
+             (2, [0, 2, 1, 4, 4, 0, 5])]
+    seqs = list(fixed)
+    for _ in range(40 if not ctx.thorough() else 400):
+        ln = rng.randrange(2, 8)
+        seqs.append((rng.choice([1, 2]), [0] + [rng.choice([0, 0, 1, 2, 2, 3, 4, 4, 5]) for _ in range(ln)]))
+    return seqs
+
+
+# --------------------------------------------------------------------------
 # kind 0: resolution
 # --------------------------------------------------------------------------
 def resolve_case(world, d, eb, ec, em, ech, entry):
@@ -864,6 +1029,39 @@ def run(ctx):
                                         "final": obs["final"]})
                 gc.collect()
             shutil.rmtree(wd, ignore_errors=True)
+        # ------------------------------------------------------------ one Reader object, sequences of calls
+        for i, (f0, ops) in enumerate(gen_object_sequences(ctx)):
+            cs = rng.choice([2, 3, 4, 5])
+            n = max(1, rng.choice([1, 2, 3, 4]) * cs + rng.choice([-1, 0, 1, 2]))
+            nc = rng.choice([1, 2, 3, 5, 8]) if i % 17 else 385
+            ns0 = n if rng.random() < 0.8 else n + rng.choice([1, 2, -1 if n > 1 else 1])
+            D = gen_data(rng, n, nc, rng.choice(["full", "small", "extremes"]))
+            d = root / ("obj%d" % i)
+            desc = {"kind": "object", "nc": nc, "n": n, "chunk_samples": cs, "meta_ns": ns0,
+                    "start": [".bin", ".cbin"][f0 - 1], "ops": ops, "calls": [OBJ_OPS[o] for o in ops]}
+            try:
+                obs = object_case(d, nc, n, cs, ns0, f0, ops, D)
+            except Exception as e:
+                ctx.fail("sequence on one Reader raised %r" % (e,), desc, {"kind": "object_exception"})
+                continue
+            finally:
+                shutil.rmtree(d, ignore_errors=True)
+            for tag, p in obs["problems"]:
+                ctx.fail(p, desc, {"kind": tag})
+            if len(obs["steps"]) != len(ops):
+                continue
+            inputs.append(enc_obj_in(nc, n, obs["zc"], ns0, f0, ops))
+            outputs.append(enc_obj_out(obs))
+            descr.append(desc)
+            dist["object_sequences"] = dist.get("object_sequences", 0) + 1
+            dist["object_calls"] = dist.get("object_calls", 0) + len(ops)
+            ctx.measurements["object_states_with_stale_nbytes"] = \
+                ctx.measurements.get("object_states_with_stale_nbytes", 0) + obs["stale_nbytes"]
+            if any(o in (2, 4) for o in ops):
+                nontrivial.add(("object", f0, tuple(ops), nc, n, cs, ns0))
+            if i in (0, 2):
+                samples.append({"kind": "object", "start": desc["start"], "calls": desc["calls"],
+                                "states[raised,file,nbytes,ns,raw,warned,bin,cbin]": obs["steps"]})
         common.correspondence(ctx, PROP, HEADER, inputs, outputs, lambda i: descr[i], n_kernel=80)
     finally:
         shutil.rmtree(root, ignore_errors=True)
@@ -875,7 +1073,10 @@ def run(ctx):
              "compress_file / decompress_file / decompress_to_scratch on directories with and without stale files, "
              "fault-free and with a fault injected at each instrumented call. Each case runs the real code and the Coq "
              "model. Non-trivial = codec case with more than one chunk, in-domain resolution case, or procedure run "
-             "with a fault or a stale file; distinct by parameters",
+             "with a fault or a stale file, or object sequence containing an in-place call; distinct by parameters. "
+             "(d) one Reader object through fixed and random sequences of open()/compress_file/decompress_file/"
+             "decompress_to_scratch: cached fields after every call vs the model, shape and chunk-seam values vs the "
+             "original, fresh Readers afterwards",
         samples=samples, evaluations=len(inputs), distinct_nontrivial=len(nontrivial),
         extra={"input_distribution": dist, "exhaustive": False},
         assumptions=["zlib.decompress(zlib.compress(b)) == b", "rename within one directory is atomic",
@@ -905,6 +1106,19 @@ def replay(ctx, data):
             print("implementation: bounds", obs["bounds"], "problems", obs["problems"])
             ids = common.coq_mismatches(PROP, HEADER, [common.flat_cases_term(
                 0, enc_codec_in(inp["nc"], inp["ns"], inp["chunk_samples"], D), enc_codec_out(obs))])
+            print("kernel-evaluated model agrees with implementation:", not ids)
+            rc = 1 if (obs["problems"] or ids) else 0
+        elif inp.get("kind") == "object":
+            D = gen_data(ctx.rng, inp["n"], inp["nc"], "full")
+            f0 = [".bin", ".cbin"].index(inp["start"]) + 1
+            obs = object_case(root / "o", inp["nc"], inp["n"], inp["chunk_samples"], inp["meta_ns"], f0, inp["ops"], D)
+            print("calls:", inp["calls"])
+            print("implementation: states [raised,file,nbytes,ns,raw,warned,bin,cbin]", obs["steps"],
+                  "\n problems", obs["problems"])
+            ids = [0]
+            if len(obs["steps"]) == len(inp["ops"]):
+                ids = common.coq_mismatches(PROP, HEADER, [common.flat_cases_term(
+                    0, enc_obj_in(inp["nc"], inp["n"], obs["zc"], inp["meta_ns"], f0, inp["ops"]), enc_obj_out(obs))])
             print("kernel-evaluated model agrees with implementation:", not ids)
             rc = 1 if (obs["problems"] or ids) else 0
         elif inp.get("kind") in ("procedure", "resolve"):
